@@ -65,4 +65,47 @@ func TestReplaySearchReuse(t *testing.T) {
 			}
 		}
 	}
+	// the second call's data context LACKS a fact the first one had: nothing remembered about the absent fact may survive
+	{
+		grl := `rule UseG "g" salience 2 { when G.X == 1 then F.Y = F.Y + 10; Retract("UseG"); }
+		 rule UseF "f" salience 1 { when F.X == 0 then F.Z = F.Z + 1; Retract("UseF"); }`
+		lib := ast.NewKnowledgeLibrary()
+		if err := builder.NewRuleBuilder(lib).BuildRuleFromResource("K", "1", pkg.NewBytesResource([]byte(grl))); err != nil {
+			t.Fatalf("build: %v", err)
+		}
+		run := func(kb *ast.KnowledgeBase, op string, withG bool) string {
+			f, g := &replayReuseFact{}, &replayReuseFact{X: 1}
+			dctx := ast.NewDataContext()
+			dctx.Add("F", f)
+			if withG {
+				dctx.Add("G", g)
+			}
+			e := NewGruleEngine()
+			e.MaxCycle = 10
+			if op == "Execute" {
+				err := e.Execute(dctx, kb)
+				return fmt.Sprintf("err=%v F=%+v", err != nil, *f)
+			}
+			rs, err := e.FetchMatchingRules(dctx, kb)
+			var names []string
+			for _, r := range rs {
+				names = append(names, r.RuleName)
+			}
+			sort.Strings(names)
+			return fmt.Sprintf("err=%v matching=%v", err != nil, names)
+		}
+		for _, op1 := range []string{"Execute", "Fetch"} {
+			for _, op2 := range []string{"Execute", "Fetch"} {
+				reused, _ := lib.NewKnowledgeBaseInstance("K", "1")
+				fresh, _ := lib.NewKnowledgeBaseInstance("K", "1")
+				run(reused, op1, true)
+				got := run(reused, op2, false)
+				want := run(fresh, op2, false)
+				if got != want {
+					t.Fatalf("CONFIRMED: %s with facts F and G, then %s with fact F only on one instance gives [%s], a fresh instance gives [%s]\n%s", op1, op2, got, want, grl)
+				}
+			}
+		}
+	}
+
 }
